@@ -239,10 +239,11 @@ struct Runner {
         if (!rounds.empty()) x.removedInRound = true;
         if (viaSubject) subj->unsubscribe(x.handle);
         else x.handle.unsubscribe();
-        if (x.handle.isValid() || x.handle.getSubject() != nullptr)
-            fail(gProp, "handle-state", site, "handle of observer " + std::to_string(id) + " still reports a subject / validity after unsubscribe");
-        if (rounds.empty() && !x.destroyed)
-            fail(gProp, "observer-not-destroyed", site, "observer " + std::to_string(id) + " is still alive after unsubscribe() returned");
+        if (x.handle.isValid())
+            fail(gProp, "handle-state", site, "handle of observer " + std::to_string(id) + " still reports validity after unsubscribe");
+        // WHEN a removed observer object is destroyed is not part of either property (an implementation may free it at once,
+        // at the end of the round, or keep a graveyard until later): only "never while subscribed" (onDestroy) and "at the
+        // latest with the Subject, exactly once" (end of run) are judged.
     }
 
     void doNotify() {
@@ -287,13 +288,7 @@ struct Runner {
         rounds.pop_back();
         if (nested) log(")");
         if (rounds.empty() && !gCaseFailed) {
-            // by the return of the outermost notify every observer removed during it must be gone
-            for (size_t i = foreign; i < e.size(); ++i) {
-                Entry &x = *e[i];
-                if (!x.present && !x.destroyed)
-                    return fail(gProp, "observer-not-destroyed", site, "observer " + std::to_string(i) + " was removed during the round but is still alive after the outermost notify() returned");
-                x.removedInRound = false;
-            }
+            for (size_t i = foreign; i < e.size(); ++i) e[i]->removedInRound = false;
         }
     }
 
@@ -391,7 +386,7 @@ struct Runner {
         log("mv" + std::to_string(id));
         if (rng.chance(150)) { Sub &self = e[id]->handle; e[id]->handle = std::move(self); }   // self-assignment leaves the handle as it is
         Sub tmp(std::move(e[id]->handle));             // move-construct
-        if (e[id]->handle.isValid() || e[id]->handle.getSubject()) return fail("C05", "handle-state", site, "moved-from handle still refers to a subject");
+        if (e[id]->handle.isValid()) return fail("C05", "handle-state", site, "a moved-from handle still reports validity (two valid handles for one subscription)");
         if (rng.chance(500)) {
             Sub tmp2;
             tmp2 = std::move(tmp);                     // move-assign
